@@ -1601,7 +1601,7 @@ theorem runWith_zstore_eq (inner : Inner) (mode : Mode) (c : Nat) (name : String
              [destCI (s.dbAt (s.conn c).db) dst])
            (s.setDbS (s.conn c).db ((s.dbAt (s.conn c).db).get dst).1)) := by
   have hreg : Cmd.regular (zsig name).name = none := regular_none name h
-  rw [runWith_special_run _ _ _ _ _ _ _ hreg]
+  rw [runWith_special_run _ _ _ _ _ _ _ hreg (Sys.refuses_of_gate_none hg)]
   simp only []
   change (match ((zsig name).apply (dst :: nkb :: b0 :: bs) (s.dbAt (s.conn c).db)).2 with
       | .error e => (some (Reply.err (strBytes e)),
@@ -1758,9 +1758,13 @@ theorem zsig_apply_short (name : String) (raw : List Bytes) (db : Db) (h : raw.l
 theorem runWith_zstore_short (inner : Inner) (mode : Mode) (c : Nat) (name : String)
     (h : name = "zunionstore" ∨ name = "zinterstore") (raw : List Bytes) (fs : Bool) (s : Sys)
     (hl : raw.length < 3) :
-    runWith (special inner) mode c (zsig name) raw fs s = (some (.err (strBytes (zsig name).wrongArgs)), s) := by
+    runWith (special inner) mode c (zsig name) raw fs s =
+      (some (if s.refuses c (zsig name) then refusalReply else .err (strBytes (zsig name).wrongArgs)), s) := by
+  cases hr : s.refuses c (zsig name) with
+  | true => rw [runWith_refused _ mode c (zsig name) raw fs hr]; rfl
+  | false =>
   have hreg : Cmd.regular (zsig name).name = none := regular_none name h
-  rw [runWith_special_run _ _ _ _ _ _ _ hreg]
+  rw [runWith_special_run _ _ _ _ _ _ _ hreg hr]
   simp only []
   change (match ((zsig name).apply raw (s.dbAt (s.conn c).db)).2 with
       | .error e => (some (Reply.err (strBytes e)),
@@ -1774,31 +1778,18 @@ theorem runWith_zstore_short (inner : Inner) (mode : Mode) (c : Nat) (name : Str
         | none => afterSpecial (s.conn c).db cis (special inner mode c (zsig name).name args cis)
             (s.setDbS (s.conn c).db ((zsig name).apply raw (s.dbAt (s.conn c).db)).1)) = _
   rw [zsig_apply_short name raw _ hl]
-  simp only [setDbS_dbAt_id]
+  simp only [setDbS_dbAt_id, Bool.false_eq_true, if_false]
 
-/-- a refused command (subscriber mode / script gate): only the look-up of the destination happened -/
+/-- a refused command (the old gate is closed = subscriber mode, as the command may be called from scripts): the
+reply is the refusal and the state is literally unchanged, whatever the arguments are — not even the destination is
+looked up -/
 theorem runWith_zstore_gated (inner : Inner) (mode : Mode) (c : Nat) (name : String)
-    (h : name = "zunionstore" ∨ name = "zinterstore") (dst nkb b0 : Bytes) (bs : List Bytes) (fs : Bool) (s : Sys)
-    (n : Int) (hn : Conv.int nkb = .ok n) (e : Err)
+    (raw : List Bytes) (fs : Bool) (s : Sys) (e : Err)
     (hg : runGate (zsig name) fs ((s.conn c).pubsub > 0) = some e) :
-    runWith (special inner) mode c (zsig name) (dst :: nkb :: b0 :: bs) fs s =
-      (some (.err (strBytes e)), s.setDbS (s.conn c).db ((s.dbAt (s.conn c).db).get dst).1) := by
-  have hreg : Cmd.regular (zsig name).name = none := regular_none name h
-  rw [runWith_special_run _ _ _ _ _ _ _ hreg]
-  simp only []
-  change (match ((zsig name).apply (dst :: nkb :: b0 :: bs) (s.dbAt (s.conn c).db)).2 with
-      | .error e => (some (Reply.err (strBytes e)),
-          s.setDbS (s.conn c).db ((zsig name).apply (dst :: nkb :: b0 :: bs) (s.dbAt (s.conn c).db)).1)
-      | .ok (.short r) => (some r,
-          s.setDbS (s.conn c).db ((zsig name).apply (dst :: nkb :: b0 :: bs) (s.dbAt (s.conn c).db)).1)
-      | .ok (.ok args cis) =>
-        match runGate (zsig name) fs (decide ((s.conn c).pubsub > 0)) with
-        | some e => (some (Reply.err (strBytes e)),
-            s.setDbS (s.conn c).db ((zsig name).apply (dst :: nkb :: b0 :: bs) (s.dbAt (s.conn c).db)).1)
-        | none => afterSpecial (s.conn c).db cis (special inner mode c (zsig name).name args cis)
-            (s.setDbS (s.conn c).db ((zsig name).apply (dst :: nkb :: b0 :: bs) (s.dbAt (s.conn c).db)).1)) = _
-  rw [zsig_apply, hn]
-  simp only [hg]
+    runWith (special inner) mode c (zsig name) raw fs s = (some (.err (strBytes e)), s) := by
+  obtain ⟨hr, rfl⟩ := Sys.refuses_of_gate_some (by simp [zsig]) hg
+  rw [runWith_refused _ mode c (zsig name) raw fs hr]
+  rfl
 
 
 /-- success: reply, stored value, other keys, notification -/
